@@ -83,6 +83,12 @@ CHECKS = {
             "the real dgrep and dgrep -v built with ASan+bounds; GrepTrace.tla accepts a run only if exactly the Eval-true lines come out, "
             "unchanged, in order, and the exit status shows no crash or sanitizer report",
             "'programs' are exhaustive up to the size bound (quick: a seeded quarter of the 7062 trees); atom truth values per line are computed by the orchestrator", "5 C17"),
+    "C18": ("model_checking", "TLA+ Chunk (transcribed prchunk_fill under every read() schedule vs LinesOf) explored by TLC; every terminal state replayed on the real reader at model scale (guarded hook); real-scale tool runs under an LD_PRELOAD read-schedule shim validated by StreamTrace",
+            "TLC explores every stream of <= 7|8 bytes under every way of cutting it into read() results (495k states); each terminal (stream, schedule) "
+            "is replayed on the real prchunk.c compiled with W=6, L=3, K=2 and judged against LinesOf; the unmodified dconv/dadd/dround -S run on "
+            "streams around 16384 lines, long lines, CRLF, missing final newline and > 16 MiB under several read schedules, compared line by line "
+            "with single-line runs (StreamTrace.tla) and with each other",
+            "terminator normalisation (CRLF->LF, final newline added) is not a violation; two known findings (window overflow, unterminated tail after a line-limit fill)", "5 C18"),
 }
 NOT_APPLICABLE = []
 
@@ -145,6 +151,6 @@ print("manifest ok", len(m["checks"]), "checks", len(m.get("not_applicable", [])
     subprocess.run(["python3-vt", "-c", code], check=True)
 
 
-HOOK_COMMITS = []
+HOOK_COMMITS = ["db8411f verif hook: model-scale constants for the chunk reader (src/prchunk.c, guarded by DATEUTILS_VERIF + VERIF_PRCH_NLINES/_LLEN/_CHUNK)"]
 if __name__ == "__main__":
     main()
